@@ -69,6 +69,15 @@ def handlePending (j : Json) : Json :=
   | .ok fs => Json.mkObj ([("pending", jstrs (fs.map (·.name)))] ++ base)
   | .error e => (pendErrJson e).mergeObj (Json.mkObj base)
 
+/-- op "pending.to": {files, revs, cfg, v} -> what `ExecuteTo(v)` executes -/
+def handlePendingTo (j : Json) : Json :=
+  let files := (arr j "files").map parseFile
+  let revs := (arr j "revs").map parseRev
+  match Pending.executeTo (parseCfg (obj j "cfg")) files revs (str j "v") with
+  | none => Json.mkObj [("err", "version-not-found")]
+  | some (.ok fs) => Json.mkObj [("files", jstrs (fs.map (·.name)))]
+  | some (.error e) => pendErrJson e
+
 /-- op "set.run": {files, revs, arg?} -> the revision table after `migrate set [arg]` -/
 def handleSetRun (j : Json) : Json :=
   let files := (arr j "files").map parseFile
